@@ -121,7 +121,7 @@ def layouts(comps, maxdev, comment=True, only_bounds=False):
     opts = []
     for g in range(ngaps):
         a, b = full[g], full[g + 1]
-        o = ["\n", " \t "]
+        o = ["\n", " \t ", "\r\n"]  # CRLF line ends are newlines too
         if safe_empty(a, b):
             o.append("")
         if g in bset and comment:
